@@ -202,6 +202,9 @@ zglocal :: fn p do
     zgx := (p, 1)
     zgy := zgx + (2, 3)
 end
+zgneg2 :: fn p do
+    (-(p, 1))
+end
 ZT :: (1, 2)
 Zb :: blob {
     a: int,
@@ -760,6 +763,7 @@ C03_KINDS = {
     "generic-tuple-neg":  ('zgneg("a")', None),
     "generic-tuple-cmp":  ('zgcmp(true, false)', None),
     "generic-local-tuple-add": (None, ['zglocal("a")']),
+    "generic-tuple-neg-unused": (None, ['zgneg2("a")']),
     "ret-type":       (None, None),      # needs the slot's return type: see c03_plants
     # compound assignment on a type without that operator, also with the SAME variable on both sides
     "compound-self-bool-add": (None, ['zc1 := true', 'zc1 += zc1']),
